@@ -243,6 +243,18 @@ theorem writeDyn_inv (B : Bounds) (vals : Vals V) (g : Grid V) (r c : Nat) (res 
                 exact hrc this
             exact ⟨v', by simp only [hnin, if_false]; exact hv⟩
 
+theorem evalDyn_dyn (B : Bounds) (vals : Vals V) (g : Grid V) (r c w h : Nat) (v : V)
+    (res : Result V) (ha : g r c = .anchor .dyn w h v) :
+    evalDyn B vals g r c res = writeDyn B vals (clearOwn g r c w h) r c res := by
+  simp only [evalDyn, ha]
+
+theorem evalDyn_other (B : Bounds) (vals : Vals V) (g : Grid V) (r c : Nat) (res : Result V)
+    (hn : ∀ w h v, g r c ≠ .anchor .dyn w h v) : evalDyn B vals g r c res = g := by
+  unfold evalDyn
+  split
+  · rename_i w h v ha; exact absurd ha (hn w h v)
+  · rfl
+
 /-! ### user edits and resets -/
 
 /-- contents a user edit can put into one cell -/
